@@ -10,7 +10,7 @@ for p in props:
     hp = V + '/harness/%s.py' % pid
     if os.path.exists(hp) and pid not in NA:
         src = open(hp).read()
-        title = re.search(r"^TITLE = '(.*)'$", src, re.M).group(1)
+        title = re.search(r"""^TITLE = (['"])(.*)\1$""", src, re.M).group(2)
         tech = re.search(r"^TECHNIQUE = '(.*)'$", src, re.M)
         note = re.search(r"^LEVEL_NOTE = '(.*)'$", src, re.M)
         checks.append(dict(property_id=pid, quick_cmd='bin/check %s quick' % pid, thorough_cmd='bin/check %s thorough' % pid,
